@@ -31,6 +31,7 @@ ProjOK(sn) ==
   /\ \A i \in 1..Len(E.objs) : LET p == E.objs[i] IN
        /\ p.s = sn[p.o]                         \* exactly the characters of the abstract string
        /\ p.len = Len(sn[p.o])                  \* len = strlen
+       /\ p.h = p.href                          \* hash = the documented hash function (MurmurHash64A, the library's seed) of the characters
        /\ p.cap >= p.len + 1                    \* NUL-terminated inside its own allocation
   /\ E.nbbad = 0                                \* a String that is an element of a container: the other elements are untouched
   /\ HashesOK(E.objs, 1, H)                     \* hash is a function of the value
